@@ -82,8 +82,15 @@ TFileDictRawUtf8 ==
 
 \* a call with a large starting value still ends in a value (labels beyond TLC's 32-bit integers are
 \* not compared, only the outcome class)
+\* decimal digits + a small number (numbers beyond 32 bits are handled as digit sequences)
+RECURSIVE AddDigits(_, _, _)
+AddDigits(ds, pos, carry) == IF carry = 0 THEN ds
+                             ELSE IF pos = 0 THEN AddDigits(<<0>> \o ds, 1, carry)
+                             ELSE LET v == ds[pos] + carry IN AddDigits([ds EXCEPT ![pos] = v % 10], pos - 1, v \div 10)
 TProbe == /\ IsEvent("probe")
           /\ Rec[l].outcome = "value"
+          \* 12.4.2: the label of the page at `offset` within the range is the numeric portion for start + offset
+          /\ (Rec[l].style = "D" => Rec[l].digits = AddDigits(Rec[l].startDigits, Len(Rec[l].startDigits), Rec[l].offset))
           /\ UNCHANGED <<ranges, answer, pcp>>
 
 TNext == TReset \/ TAdd \/ TLabel \/ TLabelSpreadsheetLetters \/ TDict \/ TFileDict \/ TFileDictRawUtf8 \/ TProbe
